@@ -175,6 +175,20 @@ def dumpstructs(ctx, n):
                         ctx.violation("dumpstruct", "dumpstruct-class-form-shows-bytes-after-the-structure",
                                       engine.case_detail(case, cfg=cfgd, data=inp, color=color,
                                                          got=ANSI.sub("", out3), want=ANSI.sub("", out2)))
+                # a display offset moves the running offsets of the hex dump and nothing else: the same bytes, the same
+                # listing, in both forms
+                off = rng.choice([16, 0x23, 0x1000, 1, 0xFFFFFFF0])
+                ctx.cell("dumpstruct:display-offset")
+                for form, call, shown in (("instance", lambda: dumpstruct(obj, offset=off, output="string", color=color), body),
+                                          ("class", lambda: dumpstruct(cs.T, inp[:r[2]], offset=off, output="string", color=color), inp[:r[2]])):
+                    o4 = ADDR.sub("", ANSI.sub("", call()))
+                    base = ADDR.sub("", plain if form == "instance" else ANSI.sub("", out2))
+                    wh, wh0 = ref_hexdump(shown, off), ref_hexdump(shown)
+                    if wh not in o4 or (wh and wh0 and o4.split(wh, 1)[1] != base.split(wh0, 1)[1]):
+                        ctx.violation("dumpstruct", f"dumpstruct-with-a-display-offset-shows-other-bytes-or-values:{form}",
+                                      engine.case_detail(case, cfg=cfgd, data=inp, color=color, offset=off, got=o4, want=wh))
+                    else:
+                        ctx.event("dumpstruct_display_offsets")
             except Exception as e:  # noqa: BLE001
                 ctx.violation("dumpstruct", f"dumpstruct-class-form-raises:{type(e).__name__}",
                               engine.case_detail(case, cfg=cfgd, data=inp, color=color, error=lib.exc_sig(e)))
